@@ -201,13 +201,17 @@ KINDS = [   # (label, exchange, is response, inner payloads)
     ('INFORMATIONAL.delete-ike', 37, False, (B('D.ike'),)),
     ('INFORMATIONAL.empty-request', 37, False, ()),
     ('INFORMATIONAL.empty-response', 37, True, ()),
+    # legal, if unusual: payloads in the clear in front of the Encrypted payload (the checksum covers them too)
+    ('INFORMATIONAL.vendor-in-clear+delete', 37, False, (B('D.esp1'),), (('V', b'clear-vendor-id'),)),
+    ('CREATE_CHILD_SA.unknown-in-clear+error', 36, True, (N_TEMPFAIL,), (('UNK', 200, False, b'xy'),)),
 ]
 KIND = {k[0]: k for k in KINDS}
 
 
 def kind_message(kind, ivname='iv-random'):
-    _, exch, resp, inner = KIND[kind]
-    return dict(HDR, exch=exch, R=resp, I=not resp, payloads=(), sk=dict(iv=IVS[ivname], payloads=tuple(inner)))
+    _, exch, resp, inner = KIND[kind][:4]
+    clear = KIND[kind][4] if len(KIND[kind]) > 4 else ()
+    return dict(HDR, exch=exch, R=resp, I=not resp, payloads=tuple(clear), sk=dict(iv=IVS[ivname], payloads=tuple(inner)))
 
 
 def region(pos, total, n):
@@ -284,7 +288,7 @@ def unit_tamper(u):
     spec0 = dict(kind=kind, bits=bits, integ=integ)
     # the untampered datagram must be accepted (else the tamper verdicts would be vacuous)
     try:
-        ok = K.abstract_message(M.Message.parse(data, crypto=lc), True) == m
+        ok = K.abstract_message(M.Message.parse(data, crypto=lc), True) == R.without_unknown(m)
     except Exception as ex:   # noqa
         ok = False
     if not ok:
